@@ -31,6 +31,32 @@ func buildComp(field string, pattern string) CompareFunc {
 	return comp
 }
 
+// checkPattern reports a pattern that cannot be turned into a comparer.  buildComp has no way to
+// report it and would leave the field unconstrained, so that the rule matches every packet.
+func checkPattern(field string, pattern string) error {
+	if !strings.HasPrefix(pattern, "/") {
+		return nil
+	}
+	_, err := regexCompare(field, pattern)
+
+	return err
+}
+
+// checkPatterns validates the patterns of all four address fields.
+func (fr FirewallRule) checkPatterns() error {
+	if err := checkPattern("fromnode", fr.FromNode); err != nil {
+		return err
+	}
+	if err := checkPattern("tonode", fr.ToNode); err != nil {
+		return err
+	}
+	if err := checkPattern("fromservice", fr.FromService); err != nil {
+		return err
+	}
+
+	return checkPattern("toservice", fr.ToService)
+}
+
 func (fr FirewallRule) BuildComps() []CompareFunc {
 	var comps []CompareFunc
 	fnc := buildComp("fromnode", fr.FromNode)
@@ -93,6 +119,9 @@ func (frd FirewallRuleData) ParseFirewallRule() (FirewallRuleFunc, error) {
 		}
 	}
 
+	if err := fr.checkPatterns(); err != nil {
+		return nil, fmt.Errorf("invalid firewall rule. %s", err)
+	}
 	comps := fr.BuildComps()
 	fwr, err := firewallRule(comps, fr.Action)
 	if err != nil {
@@ -173,7 +202,7 @@ func stringCompare(field string, value string) (CompareFunc, error) {
 }
 
 func regexCompare(field string, value string) (CompareFunc, error) {
-	if value[0] != '/' || value[len(value)-1] != '/' {
+	if len(value) < 2 || value[0] != '/' || value[len(value)-1] != '/' {
 		return nil, fmt.Errorf("regex not enclosed in //")
 	}
 	value = fmt.Sprintf("^%s$", value[1:len(value)-1])
